@@ -17,6 +17,7 @@ import (
 	"math"
 	"os"
 	"path/filepath"
+	"reflect"
 	"regexp"
 	"sort"
 	"strconv"
@@ -145,6 +146,10 @@ func c09OutParams(p *syntax.OutParams) string {
 	return strings.Join(parts, ";")
 }
 
+// c09F32 prints the exact float32 (shortest text that reads back to the same bits; "-0" for
+// negative zero, NaN/Inf spelled out).
+func c09F32(x float32) string { return strconv.FormatFloat(float64(x), 'g', -1, 32) }
+
 func c09Dump(a *syntax.Ast, sortCalls bool) []string {
 	var out []string
 	for _, inc := range a.Includes {
@@ -168,8 +173,8 @@ func c09Dump(a *syntax.Ast, sortCalls bool) []string {
 		}
 		fmt.Fprintf(&sb, " split=%v(%s|%s)", s.Split, c09InParams(s.ChunkIns), c09OutParams(s.ChunkOuts))
 		if r := s.Resources; r != nil {
-			fmt.Fprintf(&sb, " using(t=%v%g,m=%v%g,v=%v%g,s=%v%q,vol=%v%v)", r.ThreadNode != nil, r.Threads, r.MemNode != nil, r.MemGB,
-				r.VMemNode != nil, r.VMemGB, r.SpecialNode != nil, r.Special, r.VolatileNode != nil, r.StrictVolatile)
+			fmt.Fprintf(&sb, " using(t=%v%s,m=%v%s,v=%v%s,s=%v%q,vol=%v%v)", r.ThreadNode != nil, c09F32(r.Threads), r.MemNode != nil, c09F32(r.MemGB),
+				r.VMemNode != nil, c09F32(r.VMemGB), r.SpecialNode != nil, r.Special, r.VolatileNode != nil, r.StrictVolatile)
 		}
 		if s.Retain != nil {
 			sb.WriteString(" retain(")
@@ -207,6 +212,24 @@ func c09Dump(a *syntax.Ast, sortCalls bool) []string {
 	if a.Call != nil {
 		out = append(out, "TOP "+c09Call(a.Call))
 	}
+	// the order of the stage and pipeline declarations relative to each other (Callables.List is
+	// what the formatter prints from; Stages / Pipelines above hold each kind in order)
+	order := "order -"
+	if a.Callables != nil {
+		ids := make([]string, len(a.Callables.List))
+		for i, cl := range a.Callables.List {
+			switch x := cl.(type) {
+			case *syntax.Stage:
+				ids[i] = "stage:" + x.Id
+			case *syntax.Pipeline:
+				ids[i] = "pipeline:" + x.Id
+			default:
+				ids[i] = fmt.Sprintf("<%T>", cl)
+			}
+		}
+		order = "order " + strings.Join(ids, ",")
+	}
+	out = append(out, order)
 	return out
 }
 
@@ -316,8 +339,12 @@ func c09CheckFormat(c *Ctx, src []byte, path, origin string, strictComments bool
 		return keys
 	}
 	d1 := c09Dump(ast1, true)
+	thr := c09ThreadsUnstable(ast0)
 	if diff := c09DiffDump(d0, d1); diff != "" {
 		cls := c09Class(ast0)
+		if thr && c09DiffDump(c09MaskThreads(d0), c09MaskThreads(d1)) == "" {
+			cls = "threads-rounding" // nothing but `threads` values differ
+		}
 		add("C09:ast-changed:"+cls, "formatting changed the program: "+diff, map[string]interface{}{"formatted": out1})
 	}
 	out2, err, pan := c09Format([]byte(out1), path)
@@ -325,8 +352,12 @@ func c09CheckFormat(c *Ctx, src []byte, path, origin string, strictComments bool
 		add("C09:second-format-failed", "formatting the formatter's output failed: "+pan+fmt.Sprint(err), map[string]interface{}{"formatted": out1})
 	} else if out2 != out1 {
 		cls := c09Class(ast0)
-		if cls == "other" && c09NoBlank(out1) == c09NoBlank(out2) {
+		if thr && c09ThreadsLineRe.ReplaceAllString(out1, "") == c09ThreadsLineRe.ReplaceAllString(out2, "") {
+			cls = "threads-rounding" // nothing but `threads = ...` lines differ
+		} else if cls == "other" && c09NoBlank(out1) == c09NoBlank(out2) {
 			cls = "blank-lines-only"
+		} else if cls == "other" && c09BindListHasComments(ast0) {
+			cls = "comment-before-open-paren"
 		} else if cls == "other" && !strictComments && len(c09Comments(src)) > 0 {
 			cls = "comments"
 		}
@@ -350,6 +381,72 @@ func c09CheckFormat(c *Ctx, src []byte, path, origin string, strictComments bool
 		key := "C09:comment-lost"
 		if c09EmptyUsingRe.Match(src) {
 			key = "C09:comment-lost:empty-using-block"
+		} else if rc := c09RetainEntryComments(ast0); len(rc) > 0 {
+			all := true
+			for _, x := range lost {
+				all = all && rc[x]
+			}
+			if all {
+				key = "C09:comment-lost:pipeline-retain-entry"
+			}
+		}
+		if key == "C09:comment-lost" {
+			// every lost comment stands directly before a map / struct entry whose key occurs again later
+			// (the later entry overwrites the earlier one, and the comment goes with it)
+			before := map[string]bool{}
+			for _, m := range c09EntryAfterCommentRe.FindAllSubmatchIndex(src, -1) {
+				k := string(src[m[4]:m[5]])
+				if bytes.Contains(src[m[1]:], []byte(k)) {
+					for _, l := range strings.Split(string(src[m[2]:m[3]]), "\n") {
+						if t := strings.TrimSpace(l); t != "" {
+							before[t] = true
+						}
+					}
+				}
+			}
+			all := len(before) > 0
+			for _, x := range lost {
+				all = all && before[strings.TrimSpace(x)]
+			}
+			if all {
+				key = "C09:comment-lost:before-overwritten-map-entry"
+			}
+		}
+		if key == "C09:comment-lost" {
+			// every lost comment stands directly before a map key whose string literal spans lines
+			before := map[string]bool{}
+			for _, m := range c09MultilineKeyRe.FindAllSubmatch(src, -1) {
+				for _, l := range strings.Split(string(m[1]), "\n") {
+					if t := strings.TrimSpace(l); t != "" {
+						before[t] = true
+					}
+				}
+			}
+			all := len(before) > 0
+			for _, x := range lost {
+				all = all && before[strings.TrimSpace(x)]
+			}
+			if all {
+				key = "C09:comment-lost:before-multiline-key"
+			}
+		}
+		if key == "C09:comment-lost" {
+			// every lost comment stands directly before a closing `]` / `}` (no element of the literal follows it)
+			inEmpty := map[string]bool{}
+			for _, m := range c09EmptyCollectionRe.FindAllSubmatch(src, -1) {
+				for _, l := range strings.Split(string(m[1]), "\n") {
+					if t := strings.TrimSpace(l); t != "" {
+						inEmpty[t] = true
+					}
+				}
+			}
+			all := len(inEmpty) > 0
+			for _, x := range lost {
+				all = all && inEmpty[strings.TrimSpace(x)]
+			}
+			if all {
+				key = "C09:comment-lost:before-closing-bracket"
+			}
 		}
 		add(key, fmt.Sprintf("comment text lost by the formatter: %q", lost), map[string]interface{}{"formatted": out1})
 	} else if strictComments && len(c1) != len(c0) {
@@ -422,6 +519,111 @@ func c09Class(a *syntax.Ast) string {
 	return "other"
 }
 
+// ---- known class: a `threads` value which is not a fixed point of print + read ----
+//
+// The parser rounds `threads` away from zero to 1/100 with roundUpTo(float32, 100), which
+// computes ceil(float64(v)*100)/100: when the float32 nearest to k/100 lies above k/100 (0.31f =
+// 0.310000002...), reading the printed value rounds up once more (0.31 -> 0.32).
+
+func c09RoundUpTo(value float32, granularity float64) float32 { // = roundUpTo of parsenum.go
+	// (since the repair of F30: a value that already is, as closely as a float32 can hold it, a
+	// multiple of 1/granularity stays as it is)
+	if value == 0 {
+		return 0
+	}
+	if nearest := float32(math.Round(float64(value)*granularity) / granularity); nearest == value {
+		return value
+	}
+	if value > 0 {
+		return float32(math.Ceil(float64(value)*granularity) / granularity)
+	} else if value < 0 {
+		return float32(math.Floor(float64(value)*granularity) / granularity)
+	}
+	return 0
+}
+
+func c09ThreadsUnstable(a *syntax.Ast) bool {
+	for _, st := range a.Stages {
+		if r := st.Resources; r != nil && r.ThreadNode != nil {
+			f, err := strconv.ParseFloat(fmt.Sprintf("%g", r.Threads), 32)
+			if err != nil || c09RoundUpTo(float32(f), 100) != r.Threads {
+				return true
+			}
+		}
+	}
+	return false
+}
+
+var c09ThreadsDumpRe = regexp.MustCompile(`using\(t=(true|false)[^,]*,`)
+var c09ThreadsLineRe = regexp.MustCompile(`(?m)^\s*threads\s*=.*\n`)
+
+func c09MaskThreads(d []string) []string {
+	out := make([]string, len(d))
+	for i, l := range d {
+		if strings.HasPrefix(l, "stage ") {
+			l = c09ThreadsDumpRe.ReplaceAllString(l, "using(t=$1*,")
+		}
+		out[i] = l
+	}
+	return out
+}
+
+// comments attached to the entries of a pipeline's retain list (known class: they are dropped)
+func c09RetainEntryComments(a *syntax.Ast) map[string]bool {
+	out := map[string]bool{}
+	for _, p := range a.Pipelines {
+		if p.Retain != nil {
+			for _, ref := range p.Retain.Refs {
+				for _, cm := range syntax.GetComments(ref) {
+					out[strings.TrimSpace(cm)] = true
+				}
+			}
+		}
+	}
+	return out
+}
+
+// known class: a comment attached to a binding list itself (not to its first binding).  This
+// needs the list's opening parenthesis on a later line than the `call` / `return` keyword with
+// the comment in between; the list hands its comments to its first binding AND keeps them.
+func c09BindListHasComments(a *syntax.Ast) bool {
+	var lists []*syntax.BindStms
+	calls := []*syntax.CallStm{a.Call}
+	for _, p := range a.Pipelines {
+		calls = append(calls, p.Calls...)
+		if p.Ret != nil {
+			lists = append(lists, p.Ret.Bindings)
+		}
+	}
+	for _, c := range calls {
+		if c != nil {
+			lists = append(lists, c.Bindings)
+			if c.Modifiers != nil {
+				lists = append(lists, c.Modifiers.Bindings)
+			}
+		}
+	}
+	for _, l := range lists {
+		if l == nil {
+			continue
+		}
+		if len(syntax.GetComments(l)) > 0 {
+			return true
+		}
+		// comment blocks followed by a blank line are kept in the unexported AstNode.scopeComments
+		if f := reflect.ValueOf(l).Elem().FieldByName("Node").FieldByName("scopeComments"); f.IsValid() && f.Len() > 0 {
+			return true
+		}
+	}
+	return false
+}
+
+var c09EntryAfterCommentRe = regexp.MustCompile(`((?:#[^\n]*\n\s*)+)("(?:[^"\\\n]|\\.)*"|[A-Za-z_]\w*)\s*:`)
+
+var c09MultilineKeyRe = regexp.MustCompile(`((?:#[^\n]*\n\s*)+)"(?:[^"\\\n]|\\.)*\n`)
+
+var c09EmptyCollectionRe = regexp.MustCompile(`((?:#[^\n]*\n\s*)+)[\]}]`)
+
 var c09EmptyUsingRe = regexp.MustCompile(`using\s*\(\s*(#[^\n]*\n\s*)+\)`)
 
 func c09NoBlank(s string) string {
@@ -453,8 +655,16 @@ var c09NumVals = []string{"0", "1", "-1", "42", "9223372036854775807", "-9223372
 	"1e21", "1e-7", "1.7976931348623157e308", "4.9e-324", "0.1", "123456789.125", "1e15", "1e16", "100.0", "-0.0", "0.0"}
 
 type c09Gen struct {
-	c  *Ctx
-	sb strings.Builder
+	c    *Ctx
+	sb   strings.Builder
+	feat map[string]bool // features of the program being generated (printed with r.hist)
+}
+
+func (g *c09Gen) f(format string, a ...interface{}) {
+	if g.feat == nil {
+		g.feat = map[string]bool{}
+	}
+	g.feat[fmt.Sprintf(format, a...)] = true
 }
 
 func (g *c09Gen) pick(xs []string) string { return xs[g.c.Rng.Intn(len(xs))] }
@@ -463,6 +673,40 @@ func (g *c09Gen) comment(indent string) {
 	for g.c.Rng.Intn(4) == 0 {
 		fmt.Fprintf(&g.sb, "%s# c%d %s\n", indent, g.c.Rng.Intn(1000), g.pick([]string{"note", "é", "\"quoted\"", "# double", "trailing  ", ""}))
 	}
+}
+
+// words the tokenizer knows which the grammar also accepts as identifiers
+var c09KeywordIds = []string{"threads", "mem_gb", "memgb", "vmem_gb", "special", "volatile", "local", "preflight", "strict", "split",
+	"using", "retain", "struct", "filetype", "exec", "comp", "disabled"}
+
+// id returns base, sometimes padded to a length around the formatter's column thresholds
+// (bindings 30, parameters 35, stage chunk parameters 30), sometimes a keyword-like identifier.
+func (g *c09Gen) id(base string) string {
+	switch k := g.c.Rng.Intn(20); {
+	case k < 3:
+		n := 29 + g.c.Rng.Intn(8)
+		g.f("id-bytes:%d", n)
+		return base + "_" + strings.Repeat("w", n-len(base)-1)
+	case k == 3:
+		g.f("id:keyword-like")
+		return g.pick(c09KeywordIds)
+	}
+	return base
+}
+
+var c09Quoter = strings.NewReplacer(`\`, `\\`, `"`, `\"`)
+
+// help returns a string literal; one in three has a value of 19..26 bytes (thresholds 20 and 25)
+func (g *c09Gen) help() string {
+	rng := g.c.Rng
+	if rng.Intn(3) != 0 {
+		return g.pick(c09StrVals)
+	}
+	n := 19 + rng.Intn(8)
+	g.f("help-bytes:%d", n)
+	val := g.pick([]string{"", `"`, "é", `\`, "h h"})
+	val += strings.Repeat("h", n-len(val))
+	return `"` + c09Quoter.Replace(val) + `"`
 }
 
 func (g *c09Gen) val(depth int) string {
@@ -499,148 +743,384 @@ func (g *c09Gen) val(depth int) string {
 		}
 		return "{" + strings.Join(parts, ", ") + "}"
 	default:
-		return g.pick([]string{"self.a", "self.a.b", "S0", "S0.o", "S0.o.x", "S1.default"})
+		return g.pick([]string{"self.a", "self.a.b", "Q0", "Q0.o", "Q0.o.x", "Q1.default", "self.threads"})
 	}
 }
 
 func (g *c09Gen) typ() string {
-	t := g.pick([]string{"int", "float", "string", "bool", "path", "map", "file", "txt", "json.gz", "PAIR", "map<int>", "map<txt[]>"})
+	t := g.pick([]string{"int", "float", "string", "bool", "path", "map", "file", "txt", "json.gz", "a.b.c", "PAIR", "map<int>", "map<txt[]>",
+		"map<PAIR>", "map<json.gz[][]>", "map<string>"})
 	return t + strings.Repeat("[]", g.c.Rng.Intn(3)/2*(1+g.c.Rng.Intn(2)))
 }
 
-func (g *c09Gen) params(nIn, nOut int, prefix string) {
+// params writes nIn input and nOut output parameter lines and returns the ids of the outputs
+func (g *c09Gen) params(nIn, nOut int, prefix string) (outs []string) {
+	rng := g.c.Rng
 	for i := 0; i < nIn; i++ {
 		g.comment("    ")
 		help := ""
-		if g.c.Rng.Intn(3) == 0 {
-			help = " " + g.pick(c09StrVals)
+		if rng.Intn(3) == 0 {
+			help = " " + g.help()
 		}
-		fmt.Fprintf(&g.sb, "    in  %s %s%d%s,\n", g.typ(), prefix, i, help)
+		fmt.Fprintf(&g.sb, "    in  %s %s%s,\n", g.typ(), g.id(fmt.Sprintf("%s%d", prefix, i)), help)
 	}
 	for i := 0; i < nOut; i++ {
 		g.comment("    ")
-		switch g.c.Rng.Intn(5) {
+		id := g.id(fmt.Sprintf("o%s%d", prefix, i))
+		outname := g.pick([]string{`"out.txt"`, `"o\"x"`, `"é.bin"`, `""`, `"dir/sub name.json.gz"`})
+		switch rng.Intn(8) {
 		case 0:
 			fmt.Fprintf(&g.sb, "    out %s,\n", g.typ())
+			id = "default"
 		case 1:
-			fmt.Fprintf(&g.sb, "    out %s o%s%d %s %s,\n", g.typ(), prefix, i, g.pick(c09StrVals), g.pick([]string{`"out.txt"`, `"o\"x"`, `"é.bin"`, `""`}))
+			fmt.Fprintf(&g.sb, "    out %s %s,\n", g.typ(), g.help())
+			id = "default"
 		case 2:
-			fmt.Fprintf(&g.sb, "    out %s o%s%d %s,\n", g.typ(), prefix, i, g.pick(c09StrVals))
+			fmt.Fprintf(&g.sb, "    out %s %s %s,\n", g.typ(), g.help(), outname)
+			id = "default"
+		case 3:
+			fmt.Fprintf(&g.sb, "    out %s %s %s %s,\n", g.typ(), id, g.help(), outname)
+		case 4:
+			fmt.Fprintf(&g.sb, "    out %s %s %s,\n", g.typ(), id, g.help())
 		default:
-			fmt.Fprintf(&g.sb, "    out %s o%s%d,\n", g.typ(), prefix, i)
+			fmt.Fprintf(&g.sb, "    out %s %s,\n", g.typ(), id)
+		}
+		outs = append(outs, id)
+	}
+	return outs
+}
+
+// resNum returns the text of a resource value: sign (1/3 negative), zero in several spellings,
+// fractions below and above 1 (multiples of 1/1024 and values between them), integers, large
+// values, exponent spellings, many decimals, leading zeros; rarely the known absurd class > 1e12.
+func (g *c09Gen) resNum(what string) string {
+	rng := g.c.Rng
+	var s, cls string
+	switch k := rng.Intn(200); {
+	case k == 0:
+		cls, s = "absurd", g.pick([]string{"1e13", "9012345678901235", "1e30", "23372036854775808"})
+	case k < 20:
+		cls, s = "zero", g.pick([]string{"0", "0.0", "00", "0e0", "0.000", "0E-3"})
+	case k < 80:
+		cls = "below-1"
+		if rng.Intn(3) == 0 {
+			s = strconv.FormatFloat(float64(1+rng.Intn(1023))/1024, 'f', -1, 64)
+		} else {
+			s = g.pick([]string{"0.5", "0.25", "0.001", "0.0009", "0.9999", "0.75", "0.05", "0.1", "0.07", "0.09", "0.3", "0.999", "2.5e-1", "5E-1",
+				"0.123456789", "00.5", "0.0001", "1e-7", "0.99999999", "0.01", "0.02"})
+		}
+	case k < 120:
+		cls, s = "fraction-above-1", g.pick([]string{"2.5", "12.125", "1023.999", "1.1", "3.3", "1.5", "1.0009", "8191.5", "8192.25", "16384.125",
+			"100000.5", "1.25e1", "007.5", "1.000001", "2.0", "1.01", "63.99"})
+	case k < 160:
+		cls, s = "integer", g.pick([]string{"1", "2", "3", "16", "42", "007", "1024", "1023", "100"})
+	default:
+		cls, s = "large-or-exponent", g.pick([]string{"1e6", "4e9", "1e2", "1E3", "1000000", "123456789", "1e+2", "2.5e3", "65536", "1e12"})
+	}
+	if rng.Intn(3) == 0 {
+		s, cls = "-"+s, "negative-"+cls
+	}
+	g.f("resource:%s:%s", what, cls)
+	return s
+}
+
+// resources writes a stage's `using (...)` block: any subset of the keys in any order, both
+// spellings of the memory keys, sometimes a key twice (the last one wins), sometimes none.
+func (g *c09Gen) resources() {
+	rng := g.c.Rng
+	keys := []string{"mem", "vmem", "threads", "special", "volatile"}
+	rng.Shuffle(len(keys), func(i, j int) { keys[i], keys[j] = keys[j], keys[i] })
+	var entries []string
+	for _, k := range keys {
+		if rng.Intn(2) == 0 {
+			entries = append(entries, k)
 		}
 	}
+	if len(entries) > 0 && rng.Intn(5) == 0 {
+		k := entries[rng.Intn(len(entries))]
+		pos := rng.Intn(len(entries) + 1)
+		entries = append(entries[:pos], append([]string{k}, entries[pos:]...)...)
+		g.f("using:repeated-key")
+	}
+	g.f("using:entries:%d", len(entries))
+	if len(entries) > 0 {
+		g.f("using:first:%s", entries[0])
+	}
+	g.sb.WriteString(") using (\n")
+	for _, k := range entries {
+		g.comment("    ")
+		switch k {
+		case "mem":
+			fmt.Fprintf(&g.sb, "    %s = %s,\n", g.pick([]string{"mem_gb", "memgb"}), g.resNum("mem_gb"))
+		case "vmem":
+			fmt.Fprintf(&g.sb, "    %s = %s,\n", g.pick([]string{"vmem_gb", "vmemgb"}), g.resNum("vmem_gb"))
+		case "threads":
+			fmt.Fprintf(&g.sb, "    threads = %s,\n", g.resNum("threads"))
+		case "special":
+			fmt.Fprintf(&g.sb, "    special = %s,\n", g.pick(c09StrVals))
+		default:
+			v := g.pick([]string{"strict", "false"})
+			g.f("using:volatile=%s", v)
+			fmt.Fprintf(&g.sb, "    volatile = %s,\n", v)
+		}
+	}
+}
+
+var c09SrcCmds = []string{`"stages/s"`, `"bin/s -v --k=v"`, `"s   a    b"`, `"é"`, `"  lead trail  "`, `"a\tb\nc"`, `"q\"uote x"`, `"back\\slash arg"`,
+	`"/abs/bin --opt=\"quoted value\" x"`, `"s t u v"`, `"martian_stage --flag"`, `"x #y"`}
+
+func (g *c09Gen) stage(name string) {
+	rng := g.c.Rng
+	g.comment("")
+	fmt.Fprintf(&g.sb, "stage %s(\n", name)
+	outs := g.params(rng.Intn(4), rng.Intn(3), "x")
+	g.comment("    ")
+	lang := g.pick([]string{"py", "exec", "comp"})
+	g.f("src:%s", lang)
+	fmt.Fprintf(&g.sb, "    src %s %s,\n", lang, g.pick(c09SrcCmds))
+	switch rng.Intn(6) {
+	case 0:
+		g.f("stage:split-using")
+		g.sb.WriteString(") split using (\n")
+		g.params(rng.Intn(3), rng.Intn(3), "c")
+	case 1:
+		g.f("stage:split")
+		g.sb.WriteString(") split (\n")
+		g.params(rng.Intn(3), rng.Intn(3), "c")
+	}
+	if rng.Intn(2) == 0 {
+		g.resources()
+	}
+	if rng.Intn(4) == 0 {
+		g.sb.WriteString(") retain (\n")
+		n := rng.Intn(4)
+		g.f("stage:retain:%d", n)
+		for i := 0; i < n; i++ {
+			g.comment("    ")
+			id := "ox0"
+			if len(outs) > 0 && rng.Intn(4) != 0 {
+				id = outs[rng.Intn(len(outs))]
+			}
+			if id == "default" {
+				id = g.pick(c09KeywordIds)
+			}
+			fmt.Fprintf(&g.sb, "    %s,\n", id)
+		}
+	}
+	g.sb.WriteString(")\n\n")
+}
+
+func (g *c09Gen) structDecl(name string) {
+	rng := g.c.Rng
+	g.comment("")
+	fmt.Fprintf(&g.sb, "struct %s(\n", name)
+	n := 1 + rng.Intn(4)
+	for i := 0; i < n; i++ {
+		g.comment("    ")
+		id := g.id(fmt.Sprintf("m%d", i))
+		switch rng.Intn(4) {
+		case 0:
+			g.f("struct:member-help-outname")
+			fmt.Fprintf(&g.sb, "    %s %s %s %s,\n", g.typ(), id, g.help(), g.pick([]string{`"m.txt"`, `"o\"x"`, `"é"`, `"a/b c"`}))
+		case 1:
+			g.f("struct:member-help")
+			fmt.Fprintf(&g.sb, "    %s %s %s,\n", g.typ(), id, g.help())
+		default:
+			fmt.Fprintf(&g.sb, "    %s %s,\n", g.typ(), id)
+		}
+	}
+	g.sb.WriteString(")\n\n")
+}
+
+func (g *c09Gen) pipeline(name string, callees []string) {
+	rng := g.c.Rng
+	g.comment("")
+	fmt.Fprintf(&g.sb, "pipeline %s(\n", name)
+	g.params(rng.Intn(3), rng.Intn(3), "p")
+	g.sb.WriteString(")\n{\n")
+	nCalls := 1 + rng.Intn(4)
+	if rng.Intn(10) == 0 || len(callees) == 0 {
+		nCalls = 0
+		g.f("pipeline:no-calls")
+	}
+	ids := make([]string, nCalls)
+	callee := make([]string, nCalls)
+	for k := range ids {
+		callee[k] = callees[rng.Intn(len(callees))]
+		ids[k] = fmt.Sprintf("K%d", k)
+		if rng.Intn(6) == 0 {
+			ids[k] = g.id(ids[k])
+		} else if rng.Intn(5) == 0 {
+			ids[k] = callee[k] // not aliased: the call is known by the name of what it calls
+		}
+		for j := 0; j < k; j++ {
+			if ids[j] == ids[k] {
+				// two calls of one name are a compile error, and the dependency sort of the
+				// formatter is keyed by call name
+				ids[k] = fmt.Sprintf("K%d", k)
+			}
+		}
+	}
+	for k := 0; k < nCalls; k++ {
+		g.comment("    ")
+		mods := ""
+		for n := rng.Intn(3) * rng.Intn(2); n > 0; n-- {
+			m := g.pick([]string{" local", " preflight", " volatile"})
+			g.f("call:keyword%s", strings.Replace(m, " ", "-", 1))
+			mods += m
+		}
+		isMap := rng.Intn(4) == 0
+		head := "call"
+		if isMap {
+			head = "map call"
+			g.f("call:map")
+		}
+		if ids[k] == callee[k] {
+			g.f("call:not-aliased")
+			fmt.Fprintf(&g.sb, "    %s%s %s(\n", head, mods, callee[k])
+		} else {
+			fmt.Fprintf(&g.sb, "    %s%s %s as %s(\n", head, mods, callee[k], ids[k])
+		}
+		nb := rng.Intn(4)
+		if isMap && nb == 0 {
+			nb = 1
+		}
+		for b := 0; b < nb; b++ {
+			g.comment("        ")
+			v := g.val(0)
+			if k+1 < nCalls && rng.Intn(3) == 0 {
+				v = ids[k+1+rng.Intn(nCalls-k-1)] + ".o" // forward reference: forces reordering
+				g.f("call:forward-reference")
+			}
+			if isMap && b == 0 {
+				v = "split " + g.pick([]string{"[1, 2]", `{"a": 1}`, "self.p0", "K0.o", `[{"k\"q": [1.5]}, {}]`})
+			}
+			fmt.Fprintf(&g.sb, "        %s = %s,\n", g.id(fmt.Sprintf("x%d", b)), v)
+		}
+		if rng.Intn(4) == 0 {
+			w := g.pick([]string{"self", "self", "K0", "K0.o", "self.p0", "self.p0.a.b", "Q0.default"})
+			g.f("call:wildcard")
+			fmt.Fprintf(&g.sb, "        *  = %s,\n", w)
+		}
+		g.sb.WriteString("    )")
+		if rng.Intn(3) == 0 {
+			ms := []string{"local", "preflight", "volatile", "disabled"}
+			rng.Shuffle(len(ms), func(i, j int) { ms[i], ms[j] = ms[j], ms[i] })
+			ms = ms[:rng.Intn(4)]
+			g.f("call:using-entries:%d", len(ms))
+			g.sb.WriteString(" using (\n")
+			for _, m := range ms {
+				g.comment("        ")
+				v := g.pick([]string{"true", "false"})
+				if m == "disabled" {
+					v = g.pick([]string{"self.p0", "K0.flag", "Q0.off.x", "self.d.e"})
+				}
+				g.f("call:bound-%s", m)
+				fmt.Fprintf(&g.sb, "        %s = %s,\n", m, v)
+			}
+			g.sb.WriteString("    )")
+		}
+		g.sb.WriteString("\n")
+	}
+	g.comment("    ")
+	g.sb.WriteString("    return (\n")
+	nr := rng.Intn(4)
+	g.f("return:bindings:%d", nr)
+	for i := 0; i < nr; i++ {
+		g.comment("        ")
+		fmt.Fprintf(&g.sb, "        %s = %s,\n", g.id(fmt.Sprintf("op%d", i)), g.val(1))
+	}
+	if rng.Intn(12) == 0 {
+		g.f("return:wildcard")
+		fmt.Fprintf(&g.sb, "        * = %s,\n", g.pick([]string{"self", "K0", "K0.o"}))
+	}
+	g.sb.WriteString("    )\n")
+	if rng.Intn(3) == 0 {
+		n := rng.Intn(4)
+		g.f("pipeline:retain:%d", n)
+		g.sb.WriteString("    retain (\n")
+		for i := 0; i < n; i++ {
+			g.comment("        ")
+			fmt.Fprintf(&g.sb, "        %s,\n", g.pick([]string{"K0.o", "K1.o.x", "K0", "self.p0", "self.p0.f", "Q0.default", "K2.oxw"}))
+		}
+		g.sb.WriteString("    )\n")
+	}
+	g.sb.WriteString("}\n\n")
 }
 
 func (g *c09Gen) program() string {
 	g.sb.Reset()
+	g.feat = map[string]bool{}
 	rng := g.c.Rng
 	g.comment("")
-	if rng.Intn(3) == 0 {
-		g.sb.WriteString("filetype txt;\nfiletype json.gz;\n\n")
+	if rng.Intn(8) == 0 {
+		n := 1 + rng.Intn(2)
+		g.f("includes:%d", n)
+		for i := 0; i < n; i++ {
+			fmt.Fprintf(&g.sb, "@include %s\n", g.pick([]string{`"lib/a.mro"`, `"x y.mro"`, `"é.mro"`, `"a\"b.mro"`, `"../up/b.mro"`, `"a\\b.mro"`}))
+		}
+		g.sb.WriteString("\n")
+		g.comment("")
 	}
 	if rng.Intn(3) == 0 {
-		g.comment("")
-		g.sb.WriteString("struct PAIR(\n")
-		g.comment("    ")
-		fmt.Fprintf(&g.sb, "    int a %s,\n    string b,\n)\n\n", g.pick(c09StrVals))
+		fts := []string{"txt", "json.gz", "a.b.c", "bam"}
+		n := 1 + rng.Intn(len(fts))
+		g.f("filetypes:%d", n)
+		for _, ft := range fts[:n] {
+			fmt.Fprintf(&g.sb, "filetype %s;\n", ft)
+		}
+		g.sb.WriteString("\n")
 	}
-	nStages := 1 + rng.Intn(3)
-	for s := 0; s < nStages; s++ {
-		g.comment("")
-		fmt.Fprintf(&g.sb, "stage S%d(\n", s)
-		g.params(1+rng.Intn(3), rng.Intn(3), "x")
-		g.comment("    ")
-		fmt.Fprintf(&g.sb, "    src %s %s,\n", g.pick([]string{"py", "exec", "comp"}), g.pick([]string{`"stages/s"`, `"bin/s -v --k=v"`, `"s   a    b"`, `"é"`}))
+	if rng.Intn(3) == 0 {
+		g.f("struct")
+		g.structDecl("PAIR")
 		if rng.Intn(3) == 0 {
-			g.sb.WriteString(") split using (\n")
-			g.params(rng.Intn(2), rng.Intn(2), "c")
+			g.structDecl(g.id("TRIO"))
 		}
-		if rng.Intn(2) == 0 {
-			g.sb.WriteString(") using (\n")
-			if rng.Intn(2) == 0 {
-				g.comment("    ")
-				fmt.Fprintf(&g.sb, "    mem_gb = %s,\n", g.pick([]string{"1", "2.5", "0.001", "0.5", "16", "1e2", "3.3", "0", "1000000"}))
-			}
-			if rng.Intn(2) == 0 {
-				fmt.Fprintf(&g.sb, "    threads = %s,\n", g.pick([]string{"1", "2", "0.5", "1.25", "0.009", "16"}))
-			}
-			if rng.Intn(3) == 0 {
-				fmt.Fprintf(&g.sb, "    vmem_gb = %s,\n", g.pick([]string{"4", "0.7", "12.125"}))
-			}
-			if rng.Intn(3) == 0 {
-				fmt.Fprintf(&g.sb, "    special = %s,\n", g.pick(c09StrVals))
-			}
-			if rng.Intn(3) == 0 {
-				fmt.Fprintf(&g.sb, "    volatile = %s,\n", g.pick([]string{"strict", "false"}))
-			}
-		}
-		if rng.Intn(4) == 0 {
-			g.sb.WriteString(") retain (\n    ox0,\n")
-		}
-		g.sb.WriteString(")\n\n")
 	}
+	// stages and pipelines, interleaved (their relative order is part of the program text)
+	nStages := 1 + rng.Intn(3)
+	nPipes := 0
 	if rng.Intn(5) != 0 {
-		g.comment("")
-		g.sb.WriteString("pipeline P(\n")
-		g.params(1+rng.Intn(2), 1+rng.Intn(2), "p")
-		g.sb.WriteString(")\n{\n")
-		nCalls := 1 + rng.Intn(4)
-		for k := 0; k < nCalls; k++ {
-			g.comment("    ")
-			mods := ""
-			for _, m := range []string{" local", " preflight", " volatile"} {
-				if rng.Intn(6) == 0 {
-					mods += m
-				}
+		nPipes = 1 + rng.Intn(4)/3
+	}
+	callees := make([]string, nStages)
+	for i := range callees {
+		callees[i] = fmt.Sprintf("S%d", i)
+	}
+	s, p := 0, 0
+	for s < nStages || p < nPipes {
+		if p >= nPipes || (s < nStages && rng.Intn(3) != 0) {
+			g.stage(callees[s])
+			s++
+		} else {
+			if s < nStages {
+				g.f("pipeline-before-stage")
 			}
-			isMap := rng.Intn(4) == 0
-			head := "call"
-			if isMap {
-				head = "map call"
-			}
-			fmt.Fprintf(&g.sb, "    %s%s S%d as K%d(\n", head, mods, rng.Intn(nStages), k)
-			nb := 1 + rng.Intn(3)
-			for b := 0; b < nb; b++ {
-				g.comment("        ")
-				v := g.val(0)
-				if k+1 < nCalls && rng.Intn(3) == 0 {
-					v = fmt.Sprintf("K%d.o", k+1+rng.Intn(nCalls-k-1)) // forward reference: forces reordering
-				}
-				if isMap && b == 0 {
-					v = "split " + g.pick([]string{"[1, 2]", `{"a": 1}`, "self.p0", "K0.o"})
-				}
-				fmt.Fprintf(&g.sb, "        x%d = %s,\n", b, v)
-			}
-			if rng.Intn(5) == 0 {
-				g.sb.WriteString("        *  = self,\n")
-			}
-			g.sb.WriteString("    )")
-			if rng.Intn(4) == 0 {
-				g.sb.WriteString(" using (\n")
-				g.comment("        ")
-				fmt.Fprintf(&g.sb, "        %s,\n    )", g.pick([]string{"local = true", "volatile = false", "preflight = true", "disabled = self.p0", "disabled = K0.flag"}))
-			}
-			g.sb.WriteString("\n")
+			name := fmt.Sprintf("P%d", p)
+			g.pipeline(name, callees) // any stage (declared before or after) and the pipelines before
+			callees = append(callees, name)
+			p++
 		}
-		g.comment("    ")
-		g.sb.WriteString("    return (\n")
-		g.comment("        ")
-		fmt.Fprintf(&g.sb, "        op0 = %s,\n    )\n", g.val(1))
-		if rng.Intn(4) == 0 {
-			g.sb.WriteString("    retain (\n        K0.o,\n    )\n")
-		}
-		g.sb.WriteString("}\n\n")
 	}
 	if rng.Intn(2) == 0 {
 		g.comment("")
-		fmt.Fprintf(&g.sb, "call %s(\n", g.pick([]string{"P", "S0"}))
+		mods := ""
+		if rng.Intn(8) == 0 {
+			mods = g.pick([]string{" local", " volatile", " local volatile"})
+		}
+		fmt.Fprintf(&g.sb, "call%s %s(\n", mods, g.pick([]string{"P0", "S0"}))
 		g.comment("    ")
-		fmt.Fprintf(&g.sb, "    xp0 = %s,\n", g.val(0))
+		fmt.Fprintf(&g.sb, "    %s = %s,\n", g.id("xp0"), g.val(0))
 		if rng.Intn(2) == 0 {
 			fmt.Fprintf(&g.sb, "    y = %s,\n", g.val(0))
 		}
-		g.sb.WriteString(")\n")
+		g.sb.WriteString(")")
+		if rng.Intn(8) == 0 {
+			g.f("top-call:using")
+			fmt.Fprintf(&g.sb, " using (\n    %s,\n)", g.pick([]string{"volatile = true", "local = false", "disabled = self.x"}))
+		}
+		g.sb.WriteString("\n")
 	}
 	return g.sb.String()
 }
@@ -649,7 +1129,7 @@ func (g *c09Gen) program() string {
 
 func runC09(c *Ctx) {
 	r := c.Res
-	r.Rule = "(1) strings: corpus + every single byte + PRNG mixes of escapes-worthy ASCII, control bytes, multi-byte runes (incl. U+2028/9, surrogate-range and >U+10FFFF encodings) and invalid bytes: Go quoteString vs Lean quoteString (bytes), and unquoteBytes(quoteString s) = s on the real code for valid UTF-8 (non-trivial = has a byte that is escaped or non-ASCII). (2) topoSort: pipelines of 1..9 calls over random dependency graphs (DAGs, forward/backward references, occasional cycles): real (*Pipeline).topoSort order vs Lean topoSort, plus permutation / dependency order / second-run-is-identity monitors (non-trivial = at least one call must move). (3) FormatSrcBytes on the repo's .mro files, generated programs (comments before declarations/params/bindings/calls, every literal form, modifiers, resources, retains, map calls, forward references) and parsable C08-style mutants: re-parse, fixed point, AST dump equal up to call order, comment multiset (non-trivial = formatter changed the text). (4) include graphs: diamond + nested directories, combined source compiles alone to an equivalent AST. (5) value expressions: generated expression ASTs (depth <= 4, about 80% well-formed, the rest with NaN/Inf/-0, invalid UTF-8, reserved or non-identifier keys and references, nil arrays; prefix \"\", four spaces or blanks+tab): syntax.FormatExp vs the Lean printer for all of them, Parser.ParseValExp on the printed text vs the Lean reader for all of them, and for those the model calls well-formed the real text re-parses to the normalised AST (nil array -> null, integral float -> int) and prints to the same text again (non-trivial = the text has a line break, an escape or a reference); then near-miss texts (printed texts and hand-written seeds mutated by 1-3 byte/line/comma/comment edits, ASCII outside string literals): ParseValExp vs the Lean reader (both reject or same AST), the parser never panics, every accepted well-formed value survives print + read."
+	r.Rule = "(1) strings: corpus + every single byte + PRNG mixes of escapes-worthy ASCII, control bytes, multi-byte runes (incl. U+2028/9, surrogate-range and >U+10FFFF encodings) and invalid bytes: Go quoteString vs Lean quoteString (bytes), and unquoteBytes(quoteString s) = s on the real code for valid UTF-8 (non-trivial = has a byte that is escaped or non-ASCII). (2) topoSort: pipelines of 1..9 calls over random dependency graphs (DAGs, forward/backward references, occasional cycles): real (*Pipeline).topoSort order vs Lean topoSort, plus permutation / dependency order / second-run-is-identity monitors (non-trivial = at least one call must move). (3) FormatSrcBytes on the repo's .mro files, generated programs (includes, dotted filetypes, structs with help/outname, stages and pipelines interleaved; comments before declarations/params/bindings/calls/resource keys/retain entries; every literal form; stage parameters with help/outname, typed maps and arrays, default outputs, ids of 29..36 bytes and help strings of 19..26 bytes around the formatter's column thresholds, keyword-like identifiers; every src language with arguments and escapes; split / split using chunk parameters; using blocks with any subset and order of mem_gb|memgb, vmem_gb|vmemgb, threads, special, volatile = strict|false, repeated keys, resource values with sign, zero spellings incl. -0, fractions below and above 1 incl. k/1024 and values between, integers, large values, exponent spellings, leading zeros, rarely > 1e12; stage and pipeline retains; calls with keyword and bound modifiers in any order, disabled, wildcard bindings, map calls, aliased or not, forward references; returns with 0..3 bindings) and parsable C08-style mutants: re-parse, fixed point, AST dump equal up to call order, comment multiset (non-trivial = formatter changed the text); the AST dump is audited on every run (c09audit.go): reflect walks every struct type reachable from syntax.Ast, every exported field must be classified as dumped or excluded with a reason, every dumped field is altered in a parsed fixed program and the dump must change. (4) include graphs: diamond + nested directories, combined source compiles alone to an equivalent AST. (5) value expressions: generated expression ASTs (depth <= 4, about 80% well-formed, the rest with NaN/Inf/-0, invalid UTF-8, reserved or non-identifier keys and references, nil arrays; prefix \"\", four spaces or blanks+tab): syntax.FormatExp vs the Lean printer for all of them, Parser.ParseValExp on the printed text vs the Lean reader for all of them, and for those the model calls well-formed the real text re-parses to the normalised AST (nil array -> null, integral float -> int) and prints to the same text again (non-trivial = the text has a line break, an escape or a reference); then near-miss texts (printed texts and hand-written seeds mutated by 1-3 byte/line/comma/comment edits, among them bytes >= 0x80 outside string literals: Unicode white space and its neighbours, U+FFFD and invalid or truncated UTF-8 between tokens, inside identifiers and numbers, inside comments, comments at the end of the input): ParseValExp vs the Lean reader (both reject or same AST), the parser never panics, every accepted well-formed value survives print + read; on every one of those texts and on every printed text the token stream of the real scanner (mmLexInfo.Lex until the end of the input or an INVALID token) vs the model's lexAll, token by token."
 	if c.Drv == nil {
 		fatal("C09 needs the Lean driver")
 	}
@@ -677,12 +1157,19 @@ func runC09(c *Ctx) {
 	}
 
 	// ---- 1. quoteString ----
-	c09Strings(c)
+	c09Timed(c, "c09Strings", c09Strings)
 
 	// ---- 2. topoSort ----
-	c09Topo(c)
-	c09Exprs(c) // ---- 2b. value expressions: FormatExp / ParseValExp (c09exp.go)
-	c09Calls(c) // ---- 2c. call statements: CallStm.format / call_stm (c09call.go)
+	c09Timed(c, "c09Topo", c09Topo)
+	c09Timed(c, "c09Exprs", c09Exprs)         // ---- 2b. value expressions: FormatExp / ParseValExp (c09exp.go)
+	c09Timed(c, "c09Calls", c09Calls)         // ---- 2c. call statements: CallStm.format / call_stm (c09call.go)
+	c09Timed(c, "c09AuditDump", c09AuditDump) // ---- 2d. the AST dump below covers every field of the Go AST (c09audit.go)
+	c09Timed(c, "c09Decl", c09Decl)           // ---- 2e. type names, parameter lists, struct and filetype declarations (c09decl.go)
+	c09Timed(c, "c09Res", c09Res)             // ---- 2f. stage clauses: src line, using (formatGB), retain (c09res.go)
+	c09Timed(c, "c09Call2", c09Call2)         // ---- 2g. full call statements, return, retain, pipeline bodies (c09call2.go)
+	c09Timed(c, "c09Stage", c09Stage)         // ---- 2h. whole stage declarations: Stage.format / the grammar's stage production (c09stage.go)
+	c09Timed(c, "c09Pipe", c09Pipe)           // ---- 2i. whole pipeline declarations incl. the reordering of calls (c09pipe.go)
+	c09Timed(c, "c09File", c09File)           // ---- 2j. whole comment-free files: Ast.format / the grammar's file production / NewAst (c09file.go)
 
 	// ---- 3. formatter monitors ----
 	progSeeds, _ := c08LoadSeeds(c)
@@ -702,6 +1189,13 @@ func runC09(c *Ctx) {
 		out, _, _ := c09Format([]byte(src), "gen.mro")
 		r.count("gen:"+src, out != src)
 		r.hist("generated-program")
+		for f := range g.feat {
+			r.hist("gen:" + f)
+		}
+		if a, err, pan := c09Parse([]byte(src), "gen.mro"); pan != "" || err != nil || a == nil {
+			r.hist("generated-program:rejected-by-the-parser")
+			r.hist("generated-program:rejected:" + c08Norm(fmt.Sprint(err, pan)))
+		}
 		if i%401 == 0 {
 			r.sample(map[string]string{"generated_program": src})
 		}
@@ -726,10 +1220,17 @@ func runC09(c *Ctx) {
 	r.note("parsable mutants formatted: %d of %d", parsable, m)
 
 	// ---- 4. include graphs ----
-	c09Includes(c)
+	c09Timed(c, "c09Includes", c09Includes)
 
 	// ---- 5. expanded rendering of COMPILED programs (what mrp records as _mrosource) ----
-	c09Expanded(c)
+	c09Timed(c, "c09Expanded", c09Expanded)
+}
+
+// c09Timed runs one part of the harness and notes its wall time in the evidence
+func c09Timed(c *Ctx, name string, f func(*Ctx)) {
+	t := time.Now()
+	f(c)
+	c.Res.note("part %s: %.1f s", name, time.Since(t).Seconds())
 }
 
 func c09CheckFormatReportOnly(c *Ctx, src []byte, path, origin string, strict bool, key string) {
@@ -746,7 +1247,6 @@ func c09CheckFormatReportOnly(c *Ctx, src []byte, path, origin string, strict bo
 }
 
 func c09Shrink(c *Ctx, src []byte, path string, strict bool, key string) []byte {
-	cur := append([]byte{}, src...)
 	tries := 0
 	has := func(b []byte) bool {
 		tries++
@@ -757,21 +1257,28 @@ func c09Shrink(c *Ctx, src []byte, path string, strict bool, key string) []byte 
 		}
 		return false
 	}
-	// line-wise first, then byte chunks
-	for changed := true; changed && tries < 3000; {
-		changed = false
-		lines := bytes.SplitAfter(cur, []byte("\n"))
-		for i := 0; i < len(lines) && tries < 3000; i++ {
-			cand := bytes.Join(append(append([][]byte{}, lines[:i]...), lines[i+1:]...), nil)
-			if len(cand) < len(cur) && has(cand) {
-				cur = cand
-				changed = true
-				break
+	// ddmin over lines (whole declarations go first), then over the bytes within the lines
+	cur := []byte(shrinkLines(string(src), func(s string) bool { return has([]byte(s)) }, 2000))
+	// ddmin only removes aligned blocks: a declaration of k lines in the middle survives when no
+	// single line of it can go.  Slide windows of 15..1 lines over the text.
+	lines := bytes.SplitAfter(cur, []byte("\n"))
+	for size := 15; size >= 1 && tries < 4500; size-- {
+		for start := 0; start+size <= len(lines) && tries < 4500; {
+			cand := append(append([][]byte{}, lines[:start]...), lines[start+size:]...)
+			if has(bytes.Join(cand, nil)) {
+				lines = cand
+			} else {
+				start++
 			}
 		}
 	}
-	for chunk := 8; chunk >= 1 && tries < 6000; chunk /= 2 {
-		for i := 0; i+chunk <= len(cur) && tries < 6000; {
+	cur = bytes.Join(lines, nil)
+	for chunk := 8; chunk >= 1 && tries < 8000; chunk /= 2 {
+		for i := 0; i+chunk <= len(cur) && tries < 8000; {
+			if bytes.IndexByte(cur[i:i+chunk], '\n') >= 0 {
+				i++ // keep the line structure: the replay stays readable
+				continue
+			}
 			cand := append(append([]byte{}, cur[:i]...), cur[i+chunk:]...)
 			if has(cand) {
 				cur = cand
